@@ -296,6 +296,10 @@ def fixed_cases():
         S("'"), S("\\"), S("\\'"), S("\\n"), S("\n\r\t"), S("#"), S("//"), S("a//b"), S("{x}"), S("<<>>"),
         S("é€"), S("\\x41"), S('"'), S("a\\"), S(" "), S(""), S("\x00"), S("\x0b\x0c"), S(" "),
         L([S("'"), S("\\"), S("\n")]), Mp([S("'")], [S("\\")]), St([S("a"), S("a "), S("a'"), S("a!")]),
+        # text that is not in a Unicode normal form (a letter and a combining mark, compatibility characters,
+        # marks out of canonical order): a string is its code points, the text reads back as the same code points
+        S("e\u0301"), S("\u212b"), S("\u2126"), S("\uf900"), S("a\u0327\u0301"), S("a\u0301\u0327"), S("\u1e9b\u0323"),
+        L([S("e\u0301"), S("\u00e9")]), St([S("e\u0301"), S("\u00e9")]), Mp([S("\u212b"), S("\u00c5")], [S("\u2126"), S("\u03a9")]),
         # numbers
         I(0), I(-1), I(2 ** 53), I(2 ** 53 + 1), I(-(2 ** 64)), I(10 ** 30), D(0.0), D(-0.0), D(0.5), D(-2.25),
         D(2.0 ** 53), D(123456789.0), L([I(1), D(1.0)]), St([D(0.5), I(1), I(-3)]),
@@ -965,7 +969,7 @@ def int_name(n):
 def data_scalar(rng, kind=None):
     kind = kind or rng.choice(["null", "bool", "int", "int", "dec", "dec", "str", "str", "str", "pat"])
     if kind == "str":
-        alpha = M.ALPHA + ['"', "\r", "}", ">", "x", "n", "0"]
+        alpha = M.ALPHA + ['"', "\r", "}", ">", "x", "n", "0", "e", "\u0301", "\u212b"]
         n = rng.choice([0, 1, 1, 2, 3, 4, 6])
         return M.a_str("".join(rng.choice(alpha) for _ in range(n)))
     if kind == "pat":
